@@ -241,9 +241,64 @@ package lexer
 //@   ensures result == nil ==> groups[0] != ""
 //@   ensures result != nil ==> lexer.stack == old(lexer.stack)
 
-// New is covered by the bounded stand-in /verif/bounded (include expansion iterates over maps with goto restart).
-//@ func New
-//@   trusted
+// anchOK: every compiled pattern of the table is anchored at the start of the text; noInc: no include placeholder is left.
+//@ pred anchOK(c compiledRules) = foralls(s, forall(i, 0, len(c[s]), c[s][i].RE != nil ==> uf("re_anchored", "Bool", c[s][i].RE)))
+//@ pred noInc(c compiledRules) = foralls(s, forall(i, 0, len(c[s]), !implements(c[s][i].Action, RulesAction)))
+
+//@ pred freshAll(c compiledRules) = foralls(s, len(c[s]) == 0 || fresh(c[s]))
+//@ interface validatingRule.validate
+//@   params v, rules
+//@   pure
+//@ interface RulesAction.applyRules
+//@   params a, state, rule, rules
+//@   requires rules != nil && anchOK(rules) && 0 <= rule && rule < len(rules[state])
+//@   modifies mapof(rules)
+//@   ensures anchOK(rules)
+//@   ensures foralls(s, rules[s] == old(rules[s]) || fresh(rules[s]) || (s == state && objof(rules[s]) == objof(old(rules[s]))))
+
+// Include: the placeholder is replaced by a copy of the included state's (compiled) rules.
+//@ func (include).applyRules [C03 C07]
+//@   implements RulesAction.applyRules
+//@   ensures @e1 result == nil ==> foralls(s, s != state ==> rules[s] == old(rules[s]))
+//@   ensures @e2 result == nil ==> foralls(s, s != state ==> forall(j, 0, len(rules[s]), rules[s][j] == old(rules[s][j])))
+//@   ensures @e3 result == nil ==> forall(j, 0, rule, rules[state][j] == old(rules[state][j]))
+//@   ensures @e4 result == nil ==> len(rules[state]) == len(old(rules[state])) - 1 + len(old(rules[i.State]))
+//@   ensures @e5 result == nil ==> forall(j, 0, len(old(rules[i.State])), rules[state][rule + j] == old(rules[i.State][j]))
+//@   ensures @e6 result == nil ==> forall(j, rule + 1, len(old(rules[state])), rules[state][j - 1 + len(old(rules[i.State]))] == old(rules[state][j]))
+//@ func (ActionPush).validate [C03]
+//@   implements validatingRule.validate
+
+//@ global uf("re_ngroups", "Int", backrefReplace) == 3
+//@ lemma anchors(p string)
+//@   axiom
+//@   requires uf("re_selfcontained", "Bool", p)
+//@   ensures uf("re_anchors", "Bool", "^(?:" + p + ")")
+
+// New: the table handed to the lexers satisfies rulesOK, the invariant StatefulLexer.Next's proof starts from:
+// every compiled pattern is anchored at the start of the text (it was compiled from ^(?:p) with p a regular
+// expression on its own) and no include placeholder is left after expansion.
+//@ func New [C03 C04 C07]
+//@   allow-panic 1 "documented: two rules with the same name and different patterns"
+//@   ensures result1 == nil ==> result0 != nil && rulesOK(result0)
+//@   use anchors(rule.Pattern) at call regexp.Compile#1
+//@   loop 1 invariant compiled != nil && fresh(compiled) && freshAll(compiled) && anchOK(compiled)
+//@   loop 2 invariant compiled != nil && fresh(compiled) && freshAll(compiled) && anchOK(compiled) && -1 <= rangeindex && rangeindex < len(set)
+//@   loop 2 decreases len(set) - rangeindex
+//@   loop 3 invariant compiled != nil && fresh(compiled) && freshAll(compiled) && anchOK(compiled)
+//@   loop 3 nonterminating-ok
+//@   loop 4 invariant compiled != nil && fresh(compiled) && freshAll(compiled) && anchOK(compiled)
+//@   loop 4 invariant foralls(s, visited(4, s) ==> forall(i, 0, len(compiled[s]), !implements(compiled[s][i].Action, RulesAction)))
+//@   loop 5 invariant compiled != nil && fresh(compiled) && freshAll(compiled) && anchOK(compiled) && -1 <= rangeindex && rangeindex < len(rules) && rules == compiled[state]
+//@   loop 5 invariant forall(j, 0, rangeindex+1, !implements(rules[j].Action, RulesAction))
+//@   loop 5 decreases len(rules) - rangeindex
+//@   after loop 4: assert foralls(s, has(compiled, s) ==> visited(4, s))
+//@   after loop 4: assert foralls(s, !has(compiled, s) ==> len(compiled[s]) == 0)
+//@   after loop 4: assert noInc(compiled)
+//@   loop 6 invariant compiled != nil && fresh(compiled) && freshAll(compiled) && anchOK(compiled) && noInc(compiled) && fresh(keys)
+//@   loop 7 invariant compiled != nil && fresh(compiled) && freshAll(compiled) && anchOK(compiled) && noInc(compiled) && -1 <= rangeindex && rangeindex < len(keys) && symbols != nil && fresh(symbols) && duplicates != nil && fresh(duplicates)
+//@   loop 7 decreases len(keys) - rangeindex
+//@   loop 8 invariant compiled != nil && fresh(compiled) && freshAll(compiled) && anchOK(compiled) && noInc(compiled) && -1 <= rangeindex && symbols != nil && fresh(symbols) && duplicates != nil && fresh(duplicates)
+//@   loop 8 decreases len(compiled[key]) - rangeindex
 
 //@ func NewSimple [C03]
 //@   loop 1 invariant len(fullRules) == len(rules) && -1 <= rangeindex && rangeindex < len(rules)
